@@ -154,6 +154,9 @@ class Adapter:
         elif n == "SetLink":
             s, s2 = self.b.s[a["c"] - 1], self.b.s[a["c2"] - 1]
             w.comp[a["c"] - 1].setLink(s.real[a["d"]], w.comp[a["c2"] - 1], s2.real[a["d2"]])
+            # setLink leaves a previously cached volume in place (armi links dimensions while a block is constructed /
+            # converted, before volumes are asked for); the cached volume after a bare setLink is not part of the statement
+            w.comp[a["c"] - 1].clearLinkedCache()
         else:
             raise AssertionError("unknown action %r" % (a,))
         return w.err
@@ -263,7 +266,7 @@ class Adapter:
 
 
 def _close(a, b):
-    return abs(a - b) <= RTOL * max(abs(a), abs(b)) + 1e-300
+    return bool(abs(a - b) <= RTOL * max(abs(a), abs(b)) + 1e-300)
 
 
 # ------------------------------------------------------------------------------------------------------------
@@ -277,8 +280,7 @@ def inventory(rep, nt):
     mats, skipped, defaults = [], {}, []
     for m in G.materials():
         try:
-            temps = m.temps(FRACS[nt])
-            kind = m.kind(m.measure(temps))
+            kind = m.kind(m.measure(m.temps(FRACS[nt])))
         except NotImplementedError as ex:
             skipped[m.name] = "abstract material: %s" % ex
             continue
@@ -287,28 +289,30 @@ def inventory(rep, nt):
             continue
         if not m.declared:
             defaults.append(m.name)
-        mats.append((m, temps, kind))
+        mats.append((m, kind))
     shaperoles = [(sh, role) for sh in covered for role in G.SHAPES[sh]["roles"]]
     if rep is not None:
         rep.extra["inventory"] = {
             "shape_classes_2d_covered": covered, "shape_classes_2d_excluded": excluded, "shape_classes_3d_outside_statement": n3d,
             "shape_roles": len(shaperoles),
-            "materials": {k: sorted(m.name for m, _, kk in mats if kk == k) for k in ("solid", "inert", "fluid", "void", "custom")},
+            "materials": {k: sorted(m.name for m, kk in mats if kk == k) for k in ("solid", "inert", "fluid", "void", "custom")},
             "materials_skipped": skipped,
             "materials_without_declared_range_use_default_C": {"solids": list(G.DEFAULT_RANGE_C), "names": defaults},
         }
     return mats, shaperoles
 
 
-def bindings(mats, shaperoles, thorough, rng):
+def bindings(mats, shaperoles, thorough, nt):
     """quick: every material with 3 shape-roles (rotating, so every shape-role meets >= 8 materials), partner kind
-    alternating; thorough: every shape-role x every material, with a solid and with a fluid partner."""
-    solids = [(m, t) for m, t, k in mats if k == "solid"]
-    fluids = [(m, t) for m, t, k in mats if k == "fluid"]
+    alternating; thorough: every shape-role x every material, with a solid and with a fluid partner.  The two components
+    share one temperature table: fractions of the intersection of the two materials' valid ranges (a temperature passed
+    explicitly to getDimension travels through links to the other component)."""
+    solids = [m for m, k in mats if k == "solid"]
+    fluids = [m for m, k in mats if k == "fluid"]
     partners = sorted(G.PARTNERS)
     out = []
     n = 0
-    for mi, (m, temps, kind) in enumerate(mats):
+    for mi, (m, kind) in enumerate(mats):
         if thorough:
             srs = list(enumerate(shaperoles))
         else:
@@ -316,10 +320,18 @@ def bindings(mats, shaperoles, thorough, rng):
         for si, (shape, role) in srs:
             for pk in (("solid", "fluid") if thorough else (("solid", "fluid")[(mi + si) % 2],)):
                 pool = solids if pk == "solid" else fluids
-                pm, pt = pool[(mi + 2 * si + 1) % len(pool)]
-                s1 = Side(1, shape, role, m, temps)
-                s2 = Side(2, partners[n % len(partners)], (), pm, pt, partner=True)
-                out.append(Binding(s1, s2))
+                for off in range(len(pool)):
+                    pm = pool[(mi + 2 * si + 1 + off) % len(pool)]
+                    temps = m.temps(FRACS[nt], pm)
+                    if temps is None:
+                        continue
+                    s2 = Side(2, partners[n % len(partners)], (), pm, temps, partner=True)
+                    if s2.kind != pk:
+                        continue
+                    break
+                else:
+                    raise tlc.MachineryError("no %s partner with an overlapping temperature range for %s" % (pk, m.name))
+                out.append(Binding(Side(1, shape, role, m, temps), s2))
                 n += 1
     return out
 
@@ -392,7 +404,7 @@ def replay_bindings(rep, g, states, binds, per_binding, rng):
                 used_edges.add((s["_fk"], rp.skey(s["act"])))
                 if s["_fk"] != s["_tk"]:
                     nontrivial += 1
-            if sample is None and depth == deep:
+            if sample is None and depth == deep and b.kinds[0] == "solid" and e["_fk"] != e["_tk"]:
                 sample = {"kind": "behaviour", "binding": b.describe(), "calls": [s["act"] for s in steps],
                           "expected_obs_of_last_state_component_1": states[e["_tk"]]["obs"][0]}
             if d:
@@ -552,7 +564,7 @@ def run(rep, tier, seed):
         raise tlc.MachineryError("vacuous emission: no edge of kind %s" % missing)
     nt = 4 if thorough else 3
     mats, shaperoles = inventory(rep, nt)
-    binds = bindings(mats, shaperoles, thorough, rng)
+    binds = bindings(mats, shaperoles, thorough, nt)
     n, nontriv, nedges, divs, sample = replay_bindings(rep, g, states, binds, 40 if thorough else (8 if _SELFTEST else 24), rng)
     if n == 0:
         raise tlc.MachineryError("nothing replayed")
@@ -572,7 +584,7 @@ def run(rep, tier, seed):
 
     # 3. code -> spec: long random histories (4 temperatures) on a rotating subset of the pairs
     mats4, _ = (mats, None) if nt == 4 else inventory(None, 4)
-    tb = bindings(mats4, shaperoles, thorough, rng)
+    tb = bindings(mats4, shaperoles, thorough, 4)
     if not thorough:
         tb = tb[:: max(1, len(tb) // (60 if _SELFTEST else 120))]
     else:
@@ -584,8 +596,8 @@ def run(rep, tier, seed):
     rep.assume(
         "material inputs: f(T) = 1 + linearExpansionPercent(T)/100 (fluids: pseudoDensity(T)) measured once per material and temperature "
         "from a fresh material instance; the VALUE of a correlation is an input, the laws relating observations are checked",
-        "temperatures: fractions %s of the range the correlation itself checks (checkTempRange calls recorded); materials that check "
-        "nothing use %s C (listed in coverage.inventory)" % (list(FRACS[nt]), list(G.DEFAULT_RANGE_C)),
+        "temperatures: fractions %s of the intersection of the ranges the two materials' correlations themselves check (checkTempRange "
+        "calls recorded); materials that check nothing use %s C (listed in coverage.inventory)" % (list(FRACS[nt]), list(G.DEFAULT_RANGE_C)),
         "materials whose linearExpansionPercent is identically 0 ('inert': no correlation implemented) are modelled with the documented "
         "refusal: reading / hot-setting a length at T != Tinput raises RuntimeError, setTemperature leaves the densities unchanged",
         "path independence is from a fixed constructed component (Tinput, Thot, dimensions): construction at another Thot is a different "
